@@ -112,7 +112,7 @@ def run_case(case, ctx):
 
 
 def shard_main(ctx):
-    ctx.explore("2d", cases(), run_case, ctx.n(60, 1200))
+    ctx.explore("2d", cases(), run_case, ctx.n(120, 1500))
 
 
 def replay(case, ctx):
